@@ -41,6 +41,19 @@ def run(prog: Program, res: Result, tier: str) -> None:
             ok = loc.get("temp") in ("types.f8", "types.float64", "float64")
             (res.ok if ok else res.bad)("R1", fn, fn.node, "the group sum is accumulated in float64 (locals temp: f8)" if ok else
                                         f"{name}: the accumulator is no longer typed float64 in numba locals ({loc})", construct=f"{name}:acc", key=f"{name}:acc")
+    # the quotient temp / factor is truncated into the sample type: fastmath would let LLVM multiply by the reciprocal,
+    # and 49 * 100 * (1 / 49.) = 99.99.. truncates to 99 (F54) - the division must be the IEEE one
+    for name in ("downsample_1d_mean", "downsample_2d_mean_flat"):
+        fn = prog.func(K, name)
+        fm = bool((fn.numba or {}).get("fastmath"))
+        (res.bad if fm else res.ok)("R1", fn, fn.node, f"{name} is compiled with fastmath: the mean's division may become a multiplication by the reciprocal, and "
+                                    "an exact integer mean then truncates to one less" if fm else f"{name}: IEEE division (no fastmath) before the truncation into the sample type",
+                                    construct=f"{name}:division", key=f"{name}:division")
+    for tw in ("downsample_1d_mean_parallel", "downsample_2d_mean_parallel"):
+        fm = bool(prog.module(K).njit_twins.get(tw, {}).get("fastmath"))
+        node_ = prog.const(K, tw) if tw in prog.module(K).consts else None
+        (res.bad if fm else res.ok)("R1", None, node_, f"{tw} is compiled with fastmath: an exact integer mean may truncate to one less" if fm else
+                                    f"{tw}: IEEE division (no fastmath)", construct=f"{tw}:division", key=f"{tw}:division", where=f"{K}::{tw}")
     twins = prog.module(K).njit_twins
     for tw, of in (("downsample_1d_mean_parallel", "downsample_1d_mean"), ("downsample_2d_mean_parallel", "downsample_2d_mean_flat")):
         ok = tw in twins and twins[tw]["of"] == of
@@ -148,7 +161,7 @@ MUTANTS = [
     {"id": "c14-ds1d-start", "file": KF, "expect": "C14.R1",
      "old": "        start = isamp * factor\n", "new": "        start = isamp * factor + 1\n"},
     {"id": "c14-ds1d-acc-f4", "file": KF, "expect": "C14.R1",
-     "old": "@njit(cache=True, fastmath=True, locals={\"temp\": types.f8})\ndef downsample_1d_mean(", "new": "@njit(cache=True, fastmath=True, locals={\"temp\": types.f4})\ndef downsample_1d_mean("},
+     "old": "@njit(cache=True, locals={\"temp\": types.f8})\ndef downsample_1d_mean(", "new": "@njit(cache=True, locals={\"temp\": types.f4})\ndef downsample_1d_mean("},
     {"id": "c14-pad-even-symmetric", "file": SF, "expect": "C14.R2",
      "old": "(window // 2, window // 2) if window % 2 else (window // 2, window // 2 - 1)", "new": "(window // 2, window // 2) if window % 2 else (window // 2, window // 2)"},
     {"id": "c14-slice-window", "file": SF, "expect": "C14.R2",
@@ -169,6 +182,12 @@ MUTANTS = [
 MUTANTS += [
     {"id": "c14-window-clamped", "file": SF, "expect": "C14.R2",
      "old": "    pad_size = (\n        (window // 2, window // 2) if window % 2", "new": "    window = min(window, array.size)\n    pad_size = (\n        (window // 2, window // 2) if window % 2"},
+]
+MUTANTS += [
+    {"id": "c14-revert-F54", "file": KF, "expect": "C14.R1",
+     "old": "@njit(cache=True, locals={\"temp\": types.f8})\ndef downsample_2d_mean_flat(", "new": "@njit(cache=True, fastmath=True, locals={\"temp\": types.f8})\ndef downsample_2d_mean_flat("},
+    {"id": "c14-parallel-twin-fastmath", "file": KF, "expect": "C14.R1",
+     "old": "    downsample_1d_mean.py_func,\n    parallel=True,\n", "new": "    downsample_1d_mean.py_func,\n    parallel=True,\n    fastmath=True,\n"},
 ]
 TWINS = [
     {"id": "c14-twin-running-inline", "file": SF,
